@@ -1070,6 +1070,58 @@ example : (callMacro demoRec demoTop { params := [(vx, .str [])] } "map".toList 
     .list [.int 1, .int 2] := rfl
 example : ({ params := [(vx, .str [])] } : Env).getParam vx = some (.str []) := rfl
 
+-- one instance of the hypotheses of each remaining theorem
+example : ∃ log', callMacro demoRec demoTop {} "all".toList (.list [.int 1, .int 2]) [xb, xb] [] = (.bool true, log') :=
+  ⟨_, all_true rfl (rs := [.int 1, .int 2]) rfl rfl⟩
+example : ∃ log', callMacro demoRec demoTop {} "all".toList (.list [.int 1, .int 2]) [xb, [.div]] [] = (.err .divZero, log') :=
+  ⟨_, all_fails (pre := []) (post := [.int 2]) (rs := []) (v := .int 1) (e := .err .divZero) rfl rfl rfl rfl⟩
+example : ∃ log', callMacro demoRec demoTop {} "exists".toList (.list [.int 1]) [xb, [.div]] [] = (.err .divZero, log') :=
+  ⟨_, exists_fails (pre := []) (post := []) (rs := []) (v := .int 1) (e := .err .divZero) rfl rfl rfl rfl⟩
+example : ∃ log', callMacro demoRec demoTop {} "exists_one".toList (.list [.int 0, .int 4]) [xb, xb] [] = (.bool true, log') :=
+  ⟨_, exists_one_done rfl (rs := [.int 0, .int 4]) rfl (by decide)⟩
+example : ∃ log', callMacro demoRec demoTop {} "exists_one".toList (.list [.int 0]) [xb, [.div]] [] = (.err .divZero, log') :=
+  ⟨_, exists_one_fails (pre := []) (post := []) (rs := []) (v := .int 0) (e := .err .divZero) rfl rfl (by decide) rfl⟩
+example : (callMacro demoRec demoTop {} "all".toList (.list [.int 1, .int 0]) [xb, xb] []).1 = .bool ([Val.int 1, .int 0].all truthy) :=
+  all_spec rfl (rs := [.int 1, .int 0]) (log' := (bodyRun demoRec {} vx xb (.int 0) (bodyRun demoRec {} vx xb (.int 1) []).log).log) rfl
+example : ∃ log', callMacro demoRec demoTop {} "filter".toList (.list [.int 1, .int 0]) [xb, xb] [] =
+    (.list (keep [.int 1, .int 0] [.int 1, .int 0]), log') :=
+  ⟨_, filter_spec rfl rfl (rs := [.int 1, .int 0]) rfl⟩
+example : keep [.int 1, .int 0] [.int 1, .int 0] = [.int 1] := rfl
+example : ∃ log', callMacro demoRec demoTop {} "filter".toList (.list [.int 1, .int 0]) [xb, [.div]] [] = (.err .divZero, log') :=
+  ⟨_, filter_fails (pre := []) (post := [.int 0]) (rs := []) (v := .int 1) (e := .err .divZero) rfl rfl rfl rfl⟩
+example : ∃ log', callMacro demoRec demoTop {} "map".toList (.list [.int 1, .int 0]) [xb, xb] [] = (.list [.int 1, .int 0], log') :=
+  ⟨_, map_spec rfl rfl (rs := [.int 1, .int 0]) rfl⟩
+example : ∃ log', callMacro demoRec demoTop {} "map".toList (.list [.int 1, .int 0]) [xb, [.div]] [] = (.err .divZero, log') :=
+  ⟨_, map_fails (pre := []) (post := [.int 0]) (rs := []) (v := .int 1) (e := .err .divZero) rfl rfl rfl rfl⟩
+example : ∃ log', callMacro demoRec demoTop {} "map".toList (.list [.int 1, .int 0]) [xb, xb, xb] [] = (.list [.int 1], log') :=
+  ⟨_, map3_spec rfl rfl (out := [.int 1]) rfl⟩
+example : ∃ log', callMacro demoRec demoTop {} "map".toList (.list [.int 1]) [xb, [.div], xb] [] = (.err .divZero, log') :=
+  ⟨_, map3_pred_fails (pre := []) (post := []) (out := []) (v := .int 1) (a := .err .divZero) rfl rfl rfl rfl⟩
+example : ∃ log', callMacro demoRec demoTop {} "reduce".toList (.list [.int 1, .int 2])
+    [[.push (.ident "a".toList)], xb, xb, [.pop]] [] = (.int 2, log') :=
+  ⟨_, reduce_spec (cur := "a".toList) (nxt := vx) rfl rfl (s0 := .null) rfl rfl⟩
+example : ∃ log', callMacro demoRec demoTop {} "reduce".toList (.list [.int 1, .int 2])
+    [[.push (.ident "a".toList)], xb, [.div], [.pop]] [] = (.err .divZero, log') :=
+  ⟨_, reduce_fails (cur := "a".toList) (nxt := vx) (pre := []) (post := [.int 2]) (v := .int 1) (a := .null)
+    (e := .err .divZero) rfl rfl (s0 := .null) rfl rfl rfl⟩
+example : ∃ log', callMacro demoRec demoTop {} "reduce".toList (.int 5)
+    [[.push (.ident "a".toList)], xb, xb, [.div]] [] = (.err .divZero, log') :=
+  ⟨_, reduce_seed_fails (cur := "a".toList) (nxt := vx) rfl rfl (e := .err .divZero) rfl⟩
+-- the body `x` evaluates to the element itself: the pure-body equations with `g = id`
+example (l : List Val) (log : Log) :
+    (callMacro demoRec demoTop {} "filter".toList (.list l) [xb, xb] log).1 = .list (l.filter fun v => truthy v) :=
+  filter_pure (g := id) rfl rfl (fun _ _ => rfl)
+example (l : List Val) (log : Log) :
+    (callMacro demoRec demoTop {} "all".toList (.list l) [xb, xb] log).1 = .bool (l.all fun v => truthy v) :=
+  all_pure (g := id) rfl (fun _ _ => rfl)
+example (l : List Val) (log : Log) :
+    (callMacro demoRec demoTop {} "exists_one".toList (.list l) [xb, xb] log).1 = .bool (l.countP (fun v => truthy v) == 1) :=
+  exists_one_pure (g := id) rfl (fun _ _ => rfl)
+example (l : List Val) (log : Log) :
+    (callMacro demoRec demoTop {} "map".toList (.list l) [xb, xb, xb] log).1 = .list ((l.filter fun v => truthy v).map id) :=
+  map3_pure (gp := id) (ge := id) rfl rfl (fun _ _ => rfl) (fun _ _ => rfl)
+example : KeysSorted (Map.ofList [("b".toList, .int 1), ("a".toList, .int 2)]) := ofList_keys_sorted _
+
 /-- On the VM model itself: a list longer than the remaining depth budget (5 elements at budget 2). -/
 private def noBuiltins : Builtins := { func := fun _ => none, ctor := fun _ _ => .null }
 example : (runAt noBuiltins 2 {} [.push (.code xb), .push (.code xb),
